@@ -412,21 +412,30 @@ def answer_key(run, with_defers, with_depths):
 
 
 # ------------------------------------------------------------------- known findings
-def chain_without_else(e):
-    """an else-chain whose last item is a conditional (C01-K1)"""
-    for n in walk(e):
-        if not isinstance(n, str) and n[0] == "E":
-            last = n[2]
-            if not isinstance(last, str) and last[0] == "C":
-                return True
-    return False
+def chain_without_else(e, in_chain=False):
+    """an else-chain (looked at from its head) whose last item is a conditional (C01-K1)"""
+    if isinstance(e, str): return False
+    if e[0] == "E":
+        last_is_cond = (not isinstance(e[2], str)) and e[2][0] == "C"
+        if not in_chain and last_is_cond:
+            return True
+        return chain_without_else(e[1], True) or chain_without_else(e[2], (not isinstance(e[2], str)) and e[2][0] == "E")
+    return any(chain_without_else(c, False) for _, c in children(e))
+
+
+def has_reapply(e):
+    """`^~` in e outside any nested expression body of e"""
+    if isinstance(e, str): return False
+    if e[0] == "N": return False
+    if e[0] == "R": return True
+    return any(has_reapply(c) for _, c in children(e))
 
 
 def reapply_in_side_effect(e):
+    """a `^~` that would run inside a side-effect block (C01-K2)"""
     for n in walk(e):
-        if not isinstance(n, str) and n[0] == "S":
-            if any((not isinstance(m, str) and m[0] == "R") for m in walk(n[2])):
-                return True
+        if not isinstance(n, str) and n[0] == "S" and has_reapply(n[2]):
+            return True
     return False
 
 
